@@ -111,7 +111,7 @@ def gen_reads(rng, world, n):
                     ref = contig[pos + j]
                     b = alt_at.get(pos + j, ref)
                     if rng.random() < 0.02:
-                        b = rng.choice([x for x in "ACGT" if x != ref])
+                        b = rng.choice([x for x in "ACGTN" if x != ref])  # (a no-call is a base letter too)
                     seq.append(b)
                     quals.append(rng.choice(QUALS))
                 cig.append(["M", k])
